@@ -71,6 +71,23 @@ def check_resave(shape, acc, only=None):
                         idx.append(M.build_index(o, 2))
                     second = roundtrip(idx, "second")
                     got2, got1 = M.read_dense(second).tolist(), M.read_dense(first).tolist()
+                    # the changed index written over a LONGER file of an earlier save, from position 0 and without truncating (what is left
+                    # of the old file behind the new payload is not part of the index: the size word says where it ends)
+                    global _RESAVE_SEQ
+                    _RESAVE_SEQ += 1
+                    path = os.path.join(indx.scratch_dir(), "ro-%d-%d.indx" % (os.getpid(), _RESAVE_SEQ))
+                    longer = M.build_index(numpy.concatenate([exp, exp, exp]) % 3 if exp.size else exp, 0)
+                    with open(path, "w+b") as f:
+                        IndxIO.save(f, longer, longer.common, longer.rowid_dtype)
+                        f.write(b"\x01\x02\x03")            # and a few stray bytes
+                        f.seek(0)
+                        IndxIO.save(f, idx, idx.common, idx.rowid_dtype)
+                    with open(path, "rb") as f:
+                        ents, cm, dt = IndxIO.load(f)
+                        over = iindex({k: numpy.array(v, copy=True) for k, v in ents.items()}, cm, tuple(idx.shape))
+                    os.unlink(path)
+                    if M.read_dense(over).tolist() != exp.tolist():
+                        acc.violation("resave:over-longer-file", case, "saved over a longer file and loaded back: %r, expected %r" % (M.read_dense(over).tolist(), exp.tolist()))
                 except Exception as e:  # noqa
                     acc.violation("resave:raised", case, repr(e))
                     continue
